@@ -31,6 +31,10 @@ type c09Case struct {
 	Target  string   `json:"target"` // sub-target ("" = none)
 	Subs    []c09Sub `json:"subs"`   // composite (in the order handed to SubDirFS)
 	SubWalk string   `json:"subwalk"`
+	// RootVia: how the root directory is named when handed to the library: 0 its
+	// real path, 1 an absolute symlink to it, 2 a relative symlink, 3 through a
+	// symlinked parent directory, 4 a chain of two symlinks
+	RootVia int `json:"rootvia,omitempty"`
 }
 
 type walked struct {
@@ -197,7 +201,7 @@ var c09TreeCfg = h.TreeCfg{
 	MaxEntries: 14, MaxDepth: 4,
 	Kinds:  []h.Kind{h.KFile, h.KFile, h.KFile, h.KSymlink, h.KFifo, h.KChar, h.KBlock, h.KSocket},
 	Xattrs: true, XattrNS: []string{"user.", "trusted.", "security."},
-	Hardlinks: true, SpecialLinks: true, LongNames: true, BadUTF8: true,
+	Hardlinks: true, SpecialLinks: true, LongNames: true, BadUTF8: true, UncleanTargets: true,
 }
 
 func genC09(t *rapid.T) *c09Case {
@@ -226,6 +230,9 @@ func genC09(t *rapid.T) *c09Case {
 	if len(c.Subs) > 0 && rapid.Bool().Draw(t, "subwalk") {
 		c.SubWalk = c.Subs[rapid.IntRange(0, len(c.Subs)-1).Draw(t, "subwalkidx")].Name
 	}
+	if rapid.IntRange(0, 3).Draw(t, "viasymlink") == 0 {
+		c.RootVia = rapid.IntRange(1, 4).Draw(t, "rootvia")
+	}
 	return c
 }
 
@@ -250,6 +257,39 @@ func c09Check(env *h.Env, c *c09Case) error {
 	}
 	all := func(string) bool { return true }
 	want := expectWalk(snap, all)
+	// the same directory named through symbolic links
+	switch c.RootVia {
+	case 1:
+		l := filepath.Join(env.Scratch, "rootlink")
+		if err := os.Symlink(src, l); err != nil {
+			return h.Infra(err)
+		}
+		src = l
+	case 2:
+		l := filepath.Join(env.Scratch, "rootlink")
+		if err := os.Symlink("src", l); err != nil {
+			return h.Infra(err)
+		}
+		src = l
+	case 3:
+		l := filepath.Join(env.Scratch, "parentlink")
+		if err := os.Symlink(env.Scratch, l); err != nil {
+			return h.Infra(err)
+		}
+		src = filepath.Join(l, "src")
+	case 4:
+		l1, l2 := filepath.Join(env.Scratch, "rootlink1"), filepath.Join(env.Scratch, "rootlink2")
+		if err := os.Symlink("src", l1); err != nil {
+			return h.Infra(err)
+		}
+		if err := os.Symlink(l1, l2); err != nil {
+			return h.Infra(err)
+		}
+		src = l2
+	}
+	if c.RootVia != 0 {
+		env.Class("root-via-symlink")
+	}
 
 	// the four public ways to walk the root
 	var got []walked
